@@ -5,7 +5,7 @@ set -e
 ID=$1; F=$2; PAT=$3; REP=$4; TIER=${5:-quick}
 S=/var/tmp/verif-mut-$$
 rm -rf $S; mkdir -p $S
-cp -r /repo/middleware $S/middleware
+cp -r /repo/middleware $S/middleware; ln -s /repo/firmware $S/firmware; ln -s /repo/docs $S/docs
 /venv/bin/python - "$S/middleware/$F" "$PAT" "$REP" <<'PY'
 import re,sys
 p,pat,rep=sys.argv[1:4]
